@@ -222,6 +222,68 @@ fn idset_sequences(from: u64, to: u64, cnt: &mut Counters) -> Result<(), String>
     Ok(())
 }
 
+/// Delete sets as a foreign peer may write them: every sequence of up to three ranges of the universe (adjacent, overlapping,
+/// contained, unsorted, repeated) written range by range in lib0 v1, and every sorted non-overlapping sequence (adjacent ranges
+/// included) in v2; the decoded set must be canonical and equal - by ==, hash and encoding - to the set of the same points.
+fn idset_wire(from: u64, to: u64, cnt: &mut Counters) -> Result<(), String> {
+    use yrs::encoding::write::Write;
+    use yrs::updates::encoder::{Encoder, EncoderV1, EncoderV2};
+    let mut ranges: Vec<(u32, u32)> = vec![];
+    for st in 0..U {
+        for en in st + 1..=U {
+            ranges.push((st, en));
+        }
+    }
+    let n = ranges.len() as u64;
+    let none = n; // "no range" marker for shorter sequences
+    for i in from..to.min(n) {
+        for j in 0..=n {
+            for k in 0..=n {
+                let seq: Vec<(u32, u32)> = [i, j, k].iter().filter(|x| **x != none).map(|x| ranges[*x as usize]).collect();
+                if j == none && k != none {
+                    continue; // the same sequence as (i, k, none)
+                }
+                let mut m = 0u64;
+                for (st, en) in &seq {
+                    m |= ((1u64 << en) - 1) & !((1u64 << st) - 1);
+                }
+                let want = build(m, 1, U);
+                // lib0 v1: client count, client id, range count, (clock, len)*
+                let mut e = EncoderV1::new();
+                e.write_var(1u32);
+                e.write_var(1u64);
+                e.write_var(seq.len() as u32);
+                for (st, en) in &seq {
+                    e.write_var(*st);
+                    e.write_var(en - st);
+                }
+                let got = IdSet::decode_v1(&e.to_vec()).map_err(|x| format!("wire v1: {:?} does not decode: {}", seq, x))?;
+                canon(&got, &format!("decode_v1 of ranges {:?}", seq))?;
+                same(&got, &want, &format!("decode_v1 of ranges {:?}", seq))?;
+                cnt.inc("idset_wire_v1");
+                // lib0 v2 can only express sorted, non-overlapping sequences (clocks are written as differences)
+                let sorted = seq.windows(2).all(|w| w[0].1 <= w[1].0);
+                if sorted {
+                    let mut e = EncoderV2::new();
+                    e.write_var(1u32);
+                    e.reset_ds_cur_val();
+                    e.write_var(1u64);
+                    e.write_var(seq.len() as u32);
+                    for (st, en) in &seq {
+                        e.write_ds_clock(*st);
+                        e.write_ds_len(en - st);
+                    }
+                    let got = IdSet::decode_v2(&e.to_vec()).map_err(|x| format!("wire v2: {:?} does not decode: {}", seq, x))?;
+                    canon(&got, &format!("decode_v2 of ranges {:?}", seq))?;
+                    same(&got, &want, &format!("decode_v2 of ranges {:?}", seq))?;
+                    cnt.inc("idset_wire_v2");
+                }
+            }
+        }
+    }
+    Ok(())
+}
+
 // ---- IdMap ---------------------------------------------------------------------------------
 
 const UM: u32 = 5;
@@ -480,6 +542,7 @@ pub fn cmd_idset(args: &Args) -> i32 {
     let res = catch(|| match part.as_str() {
         "idset" => idset_exhaustive(from, (from + count).min(1 << U), &mut cnt),
         "seq" => idset_sequences(from, from + count, &mut cnt),
+        "wire" => idset_wire(from, from + count, &mut cnt),
         "idmap" => idmap_exhaustive(from, from + count, &mut cnt, tier == "thorough"),
         _ => {
             let mut rng = Rng::with_seed(seed * 1000 + from);
